@@ -213,7 +213,8 @@ def profiles_for(pid, tier):
                 # (written by the sweep that expires it) must be blurred like every other
                 ("crash-blur", dict(base, usage=True, blur="rand", w_crash=9, w_claim=14, w_allocate=6, w_sweep=5, w_bigjump=4,
                                     quiesce=True), N(80, 600))],
-        "C17": [("bigints", dict(base, big_ints=True, int_ids=True, _impl_only=True, w_add=18, w_open=14, w_close=3), N(60, 400)),
+        "C17": [("alloc-paired", dict(_special="alloc-paired"), N(40, 300)),
+                ("bigints", dict(base, big_ints=True, int_ids=True, _impl_only=True, w_add=18, w_open=14, w_close=3), N(60, 400)),
                 ("lookalike", dict(look, w_malformed=8, w_release=10, w_close=10, w_claim=10, w_open=10), N(80, 600)),
                 ("malformed", dict(three, w_malformed=14), N(200, 2000)),
                 ("odd-strings", dict(base, apps=["a", "", "ü"], sides=["s1", "", "s\u0000x"], names=["1", "", "ñ", "²", "①"], w_allocate=8,
